@@ -177,7 +177,7 @@ class CompileFailure(DirectUnit):
             compile(code, 'gen', 'exec')
             return 0
         except Exception as e:
-            self.info['reason'] = 'compiler failed: %s: %s' % (type(e).__name__, str(e)[:200])
+            self.ch.note(info, 'compiler failed: %s: %s', type(e).__name__, str(e)[:200])
             return 2
 
 
@@ -220,7 +220,7 @@ def build_body_unit(u):
     def body(vals):
         ch.install_registry(False)
         w = World(vals)
-        yp = YP()
+        yp = ch.new_engine()
         yp.load_script_from_string(code, overwrite=False)
         if code2 is not None:
             yp.load_script_from_string(code2, overwrite=False)
@@ -233,10 +233,10 @@ def build_body_unit(u):
                 if len(got) > cap:
                     break
         except Exception as e:
-            info['reason'] = 'query raised %s: %s' % (type(e).__name__, str(e)[:200])
+            ch.note(info, 'query raised %s: %s', type(e).__name__, str(e)[:200])
             return ch.VIOLATED
         if w.stack:
-            info['reason'] = 'leaf generators still active after the query ended: %r' % (w.stack,)
+            ch.note(info, 'leaf generators still active after the query ended: %r', w.stack,)
             return ch.VIOLATED
         # reference run against the same world
         interp = Interp(clauses)
@@ -257,8 +257,7 @@ def build_body_unit(u):
         if w.overflow:
             return ch.HOLDS_TRIVIAL
         if got != exp:
-            with NoTracing():
-                info['reason'] = 'answers %r differ from reference %r' % (got, exp)
+            ch.note(info, 'answers %r differ from reference %r', got, exp)
             return ch.VIOLATED
         return ch.HOLDS_NONTRIVIAL
     h = ch.harness_from_spec(u['id'], spec, {}, body, info=info)
